@@ -825,6 +825,10 @@ class Executor(Exec):
         return [(st, "normal")]
 
     def s_Return(self, s, st):
+        if isinstance(s.value, ast.IfExp):
+            node = ast.If(test=s.value.test, body=[ast.copy_location(ast.Return(value=s.value.body), s)],
+                          orelse=[ast.copy_location(ast.Return(value=s.value.orelse), s)])
+            return self.exec_stmt(ast.copy_location(node, s), st)
         v = self.eval(s.value, st) if s.value is not None else VNone()
         if not self.dry:
             self.exits.append(Exit("return", st, value=v, line=s.lineno))
@@ -889,6 +893,13 @@ class Executor(Exec):
         return self.assign(st, s.target, v)
 
     def s_Assign(self, s, st):
+        if isinstance(s.value, ast.IfExp):
+            # `x = a if c else b` is executed as the statement `if c: x = a  else: x = b` (separate paths: operands of
+            # different shapes need no merge and side effects in an operand are ordinary statements)
+            node = ast.If(test=s.value.test,
+                          body=[ast.copy_location(ast.Assign(targets=s.targets, value=s.value.body), s)],
+                          orelse=[ast.copy_location(ast.Assign(targets=s.targets, value=s.value.orelse), s)])
+            return self.exec_stmt(ast.copy_location(node, s), st)
         v = self.eval(s.value, st)
         states = [(st, "normal")]
         for t in s.targets:
